@@ -168,3 +168,24 @@ PROPS['C12'] = _with_extra(PROPS['C12'], direct2.c12fmt_run)
 PROPS['C15'] = _with_extra(PROPS['C15'], direct2.c15_run, direct2.c15_replay)
 PROPS['C17'] = dict(coq=['Properties/C17.v'], **hist_prop(
     'C17', {'C17'}, W(sat=6, find=12), 1500, 40000, hg={'odd': 'mix'}, extra_oracle=direct2.c17_find_oracle))
+
+
+# ---------------------------------------------------------------- known finding K1 (base text containing U+001B)
+def _k1_confirm(prop):
+    def confirm(entry, term):
+        """re-run K1's witness for this property on the implementation; True = it still fails"""
+        if entry.get('id') != 'K1':
+            return None
+        from ansi_string import AnsiString
+        if prop == 'C03':
+            s = AnsiString('\x1b[') + '1mfoo'
+            return AnsiString(str(s)).base_str != s.base_str
+        t = AnsiString('a\x1b[2Jb')
+        t.apply_formatting('red', 3, 5)
+        r = term.run(str(t))
+        return r is None or r[0] != t.base_str
+    return confirm
+
+
+PROPS['C01']['confirm_known'] = _k1_confirm('C01')
+PROPS['C03']['confirm_known'] = _k1_confirm('C03')
